@@ -364,6 +364,36 @@ def exhaustive_c09(rng, tag, limit):
     return out
 
 
+def mc_cfg_concrete():
+    """the configuration of spec/MC_Ref.tla (Cfg), for the harness"""
+    g = lambda n, a: group(n, a)
+    return {"secrets": [secret("s1", "k", ["10.0.0.0/8"])],
+            "users": [user("a", ["s1"], auth("pa"), acct=True), user("b", ["s1"], None, groups=[g("0", None), g("1", auth("pb")), g("2", auth("pc"))]),
+                      user("c", ["s1"], None), user("d", ["s1"], {"k": "badhex", "pw": ""})],
+            "deny": [], "allow": []}
+
+
+def mc_ref_scenarios(ctx, rng, prop, limit):
+    """design check of the reference handlers (MC_Ref) + one replay scenario per explored transition"""
+    cfgname = "MCRef.cfg"
+    with open(os.path.join(ctx.specdir(), cfgname), "w") as f:
+        f.write("SPECIFICATION Spec\nCONSTANTS\n  Sids = {1, 2}\n  MaxPkts = %d\nVIEW View\nACTION_CONSTRAINT Emit\nINVARIANTS NoViolation TranscriptMatchesState\nCHECK_DEADLOCK FALSE\n" % (3 if ctx.tier == "quick" else 4))
+    emit = ctx.path("emit-ref.csv")
+    r0 = ctx.tlc_ok("MC_Ref", cfg=cfgname, env={"EMIT_FILE": emit}, workers=min(NCPU, 8), heap="8g")
+    scripts = emitted_json_lines(emit)
+    os.remove(emit)
+    total = len(scripts)
+    if len(scripts) > limit:
+        rng.shuffle(scripts)
+        scripts = scripts[:limit]
+    cfg = mc_cfg_concrete()
+    out = []
+    for i, sc in enumerate(scripts):
+        steps = [{"c": 1, "sid": p["sid"] - 1, "seq": p["seq"], "ty": p["ty"], "min": p["min"], "fl": 1, "p": raw(p["b"]), "pws": []} for p in sc]
+        out.append({"id": "mcref-%d" % i, "cfg": cfg, "conns": [{"c": 1, "addr": "10.1.0.5"}], "steps": steps, "iso": prop == "C09", "log": prop == "C18"})
+    return r0, out, total
+
+
 def collect(ctx, prop):
     quick = ctx.tier == "quick"
     rng = random.Random(ctx.seed * 31337 + int(prop[1:]))
@@ -373,6 +403,12 @@ def collect(ctx, prop):
     scen = [scenario(rng, i, prop, tag) for i in range(n)]
     if prop == "C09":
         scen += exhaustive_c09(rng, tag, 300 if quick else 6000)
+    mcinfo = None
+    if prop in ("C07", "C09", "C10", "C14", "C18"):
+        r0, mcs, mctotal = mc_ref_scenarios(ctx, rng, prop, 600 if quick else 20000)
+        scen += mcs
+        mcinfo = {"handlers_model_states": r0["distinct"], "handlers_model_transitions": r0["states"], "scripts_replayed": len(mcs), "scripts_emitted": mctotal}
+        ctx.log("MC_Ref: %d states, %d transitions, %d of %d scripts replayed" % (r0["distinct"], r0["states"], len(mcs), mctotal))
     sfile = ctx.path("scen.ndjson")
     with open(sfile, "w") as f:
         for s in scen:
@@ -380,12 +416,14 @@ def collect(ctx, prop):
     tf = ctx.path("trace.ndjson")
     p = ctx.run_harness(["ref", sfile, tf, str(ctx.seed)], check=False)
     crashed = p.returncode != 0
+    ctx.log("harness done (rc=%d)" % p.returncode)
     stats = {}
     if not crashed:
         stats = json.loads(p.stdout.strip().splitlines()[-1])
     os.makedirs(ctx.path("chunks"), exist_ok=True)
     chunks = split_trace(tf, NCPU * (1 if quick else 3), ctx.path("chunks"))
     res = validate_chunks(ctx, "Trace_Ref", chunks, heap="4g")
+    ctx.log("trace validation done: %d chunks" % len(chunks))
     byid = {s["id"]: s for s in scen}
     found, others, divs = [], set(), []
     for rr in res:
@@ -423,7 +461,8 @@ def collect(ctx, prop):
            "evaluations": len(scen), "distinct_nontrivial": len({json.dumps(s["steps"], sort_keys=True) for s in scen if len(s["steps"]) >= 2}),
            "rule": "scenario = configuration + packets of 1-3 sessions interleaved on 1-2 connections of the real reference server; non-trivial = distinct step list with >= 2 packets",
            "samples": [slim(scen[0]), slim(scen[-1])], "steps": nsteps, "events": stats.get("events"),
-           "model_divergences": len(divs), "first_divergences": divs[:5], "other_property_observations": sorted(others), "exhaustive": False}
+           "model_divergences": len(divs), "first_divergences": divs[:5], "other_property_observations": sorted(others), "exhaustive": False,
+           "design_check": mcinfo}
     return cov, ["the abstract configuration in the trace is the one the harness rendered into the real config.ServerConfig (bcrypt hashes at MinCost)",
                      "pattern text and its AST are produced together by the generator (lib/refgen.py render)",
                      "connections are scripted in-memory objects; packets are fed one at a time (quiescence between packets)"], found
